@@ -45,7 +45,7 @@ ASSUMPTIONS = [
     "safe-mode monitor: any `exec` audit event, any call of subfield_eval or of a canary while "
     "from_human_string(safe=True) is on the stack is an evaluation",
 ]
-MUST_REACH = {"roundtrips": 800, "templates_covered": 481, "beautified_roundtrips": 300, "packed_fields_printed": 200,
+MUST_REACH = {"messages_shown_edited_shown_again": 150, "failed_template_reloads_provoked": 2, "earlier_texts_parsed_after_reload:syntax-error": 20, "earlier_texts_parsed_after_reload:dies-midway": 20, "earlier_texts_parsed_after_reload:good": 20, "roundtrips": 800, "templates_covered": 481, "beautified_roundtrips": 300, "packed_fields_printed": 200,
               "multiline_strings": 30, "replacement_hits": 30, "safe_fuzz_texts": 300, "safe_fuzz_rejected_eval": 50,
               "registered_payload_messages": 100, "same_bytes_two_contexts": 5, "damaged_registered_payloads": 5, "degenerate_registered_payloads": 5,
               "alternating_context_message_pairs": 5, "replacement_semantics_cases": 20, "replacement_semantics_falsy_values": 4, "replacement_hits_lazy_table": 3}
@@ -448,6 +448,146 @@ def alternate_single_context_messages(ctx, tmpl, spec):
                         return
 
 
+def shown_edited_shown(ctx, rng, tmpl, spec, data):
+    """One long-lived message object, as a log window or an addon holds it: shown, edited in place (some of its fields take the
+    values of another message of the same type, their neighbours stay), shown again. The text shown the second time has to be
+    the text of the message as it is then."""
+    spec2 = gen_msg.limit_for_zerocode(rng, tmpl, {"flags": spec["flags"], "p_extra": 0, "max_var_len": 300, "small_block": 8})
+    spec2["acks"] = []
+    spec2["extra"] = b""
+    inject_registered_payloads(rng, tmpl, spec2)
+    try:
+        m = _deser.deserialize(data)
+        other = _deser.deserialize(wire.ref_encode(tmpl, spec2))
+    except Exception:
+        return
+    m.direction = rng.choice(list(type(m.direction)))
+    before = ctx.counters.get("roundtrips", 0)
+    check_roundtrip(ctx, tmpl, spec, m, True, 0, {"spec": spec, "shown": 1})
+    if ctx.counters.get("roundtrips", 0) == before:
+        return
+    for rnd in range(2):
+        edited = []
+        for bn, blks in m.blocks.items():
+            for k, (mb, ob) in enumerate(zip(blks, other.blocks.get(bn, []))):
+                for vn in list(mb.vars):
+                    if vn in ob.vars and rng.random() < (0.35 if rnd == 0 else 0.6):
+                        try:
+                            mb[vn] = ob[vn]
+                        except Exception as e:
+                            ctx.violation("edit-raises", "setting a field of a decoded message raised", {"spec": spec, "field": [bn, k, vn],
+                                                                                                    "exc": repr(e)[:200]})
+                            return
+                        edited.append([bn, k, vn])
+        if not edited:
+            continue
+        ctx.count("messages_shown_edited_shown_again")
+        check_roundtrip(ctx, tmpl, spec, m, True, 0, {"spec": spec, "spec2": spec2, "edited_in_place": edited[:40], "shown": 2 + rnd,
+                                                     "kind": "shown-edited-shown"})
+
+
+def texts_across_template_reloads(ctx, rng, corpus):
+    """Text the proxy showed earlier (a log window, a saved message) is parsed later. In between, the library may have reloaded its
+    templates module (it does whenever the file looks newer - checked at every parse) - successfully, or not: a half-written save
+    does not import. Either way the earlier text still stands for the same datagram body. No file is touched: the remembered time
+    stamp is made to look old, and the failing import is injected at importlib.reload. Runs last in its shard."""
+    import types
+    import importlib as real_importlib
+    import hippolyzer.lib.base.message.message as msgmod
+    held = []
+    for tmpl, spec, data in corpus:
+        try:
+            m = _deser.deserialize(data)
+            text = str(mf.HumanMessageSerializer.to_human_string(m, beautify=True, template=tmpl))
+            want = body_of(m, m)
+        except Exception:
+            continue
+        back, _ = safe_parse(text)
+        if isinstance(back, Exception):
+            continue
+        try:
+            back.direction = m.direction
+            if body_of(back, m) != want:
+                continue
+        except Exception:
+            continue
+        held.append((tmpl.name, spec, text, want, m.packet_id, tuple(m.acks), m.direction))
+    if len(held) < 10:
+        ctx.inconclusive_because("too few beautified texts to carry across a template reload")
+        return
+    ctx.count("texts_held_across_template_reloads", len(held))
+    ctx.count("packed_fields_held_across_template_reloads", sum(t[2].count("=|") for t in held))
+
+    def parse_all(phase):
+        for name, spec, text, want, pid, acks, direction in held:
+            ctx.ev()
+            back, evals = safe_parse(text)
+            wit = {"kind": "reload", "phase": phase, "message": name, "text": text[:1200], "spec": spec}
+            if isinstance(back, Exception):
+                ctx.violation("earlier-text-refused:" + phase, "text produced before the templates module was reloaded no longer parses",
+                              dict(wit, exc=repr(back)[:300]))
+                return False
+            try:
+                back.packet_id, back.acks, back.direction = pid, acks, direction
+                got = bytes(_ser.serialize(back))[6:]
+            except Exception as e:
+                ctx.violation("earlier-text-not-encodable:" + phase, "text produced before the templates module was reloaded parses to a "
+                              "message that cannot be encoded", dict(wit, exc=repr(e)[:300]))
+                return False
+            if got != want:
+                ctx.violation("earlier-text-means-something-else:" + phase, "text produced before the templates module was reloaded "
+                              "parses to another datagram body", dict(wit, want=want[:200], got=got[:200]))
+                return False
+            ctx.count("earlier_texts_parsed_after_reload:" + phase)
+        return True
+
+    def failing(kind):
+        def reload(mod):
+            _STATE["reload_faults"] = _STATE.get("reload_faults", 0) + 1
+            if kind == "dies-midway":
+                # the first part of the file runs (re-registering what it defines), then the import dies
+                src = open(mod.__file__, encoding="utf8").read().splitlines(keepends=True)
+                cut = len(src) // 3
+                while cut < len(src) and (src[cut][:1] in " \t)]}" or not src[cut].strip()):
+                    cut += 1
+                try:
+                    exec(compile("".join(src[:cut]), mod.__file__, "exec"), mod.__dict__)
+                except SyntaxError:
+                    pass
+                raise NameError("name 'half_written' is not defined")
+            raise SyntaxError("unexpected EOF while parsing (half-written save)")
+        return types.SimpleNamespace(reload=reload)
+
+    phases = ["syntax-error", "dies-midway", "good"] if ctx.shard % 2 else ["good", "syntax-error", "dies-midway", "good"]
+    try:
+        for phase in phases:
+            msgmod.importlib = real_importlib if phase == "good" else failing(phase)
+            msgmod._TEMPLATES_MTIME = 0
+            before = _STATE.get("reload_faults", 0)
+            old = dict(se.SUBFIELD_SERIALIZERS)
+            ok = parse_all(phase)
+            if phase == "good":
+                if old and all(se.SUBFIELD_SERIALIZERS.get(k) is v for k, v in old.items()):
+                    ctx.inconclusive_because("template reload did not re-register the serializers")
+                    return
+                ctx.count("template_reloads_provoked")
+            else:
+                if _STATE.get("reload_faults", 0) == before:
+                    ctx.inconclusive_because("the failing templates import was never reached")
+                    return
+                ctx.count("failed_template_reloads_provoked")
+            if not ok:
+                return
+    finally:
+        msgmod.importlib = real_importlib
+        msgmod._TEMPLATES_MTIME = 0
+        try:
+            Message_ = msgmod.Message
+            Message_("TestMessage")
+        except Exception:
+            pass
+
+
 def force_awkward_strings(rng, tmpl, spec):
     for (bname, entries) in spec["blocks"]:
         if not entries:
@@ -538,6 +678,9 @@ def _context_switched_int_keys():
 _CONTEXT_SWITCHED_INT_KEYS = _context_switched_int_keys()
 
 
+_RELOAD_CORPUS = []
+
+
 def run(ctx):
     install_monitor()
     rng = ctx.rng
@@ -584,6 +727,8 @@ def run(ctx):
                 ctx.count("corpus_build_failed")
                 continue
             msg.direction = rng.choice(list(type(msg.direction)))
+            if has_registered and len(_RELOAD_CORPUS) < 120 and rng.random() < 0.5:
+                _RELOAD_CORPUS.append((tmpl, spec, data))
             for beautify in (False, True):
                 for table in (0, tv):
                     # every message object is printed from a fresh decode (printing may fill per-block caches)
@@ -592,12 +737,16 @@ def run(ctx):
                     check_roundtrip(ctx, tmpl, spec, m, beautify, table, {"spec": spec})
             del m
             alternate_single_context_messages(ctx, tmpl, spec)
+            if has_registered or rng.random() < 0.15:
+                shown_edited_shown(ctx, rng, tmpl, spec, data)
     ctx.count("same_bytes_two_contexts", _STATE.get("same_bytes_two_contexts", 0))
     ctx.count("damaged_registered_payloads", _STATE.get("damaged_registered_payloads", 0))
     ctx.count("degenerate_registered_payloads", _STATE.get("degenerate_registered_payloads", 0))
     safe_fuzz(ctx, rng)
     if ctx.shard == 0:
         check_replacement_semantics(ctx, rng)
+    if ctx.shard % 4 in (1, 2):
+        texts_across_template_reloads(ctx, rng, _RELOAD_CORPUS)
 
 
 def replay(ctx, w):
